@@ -65,6 +65,15 @@ class Queue(mp_Queue):
         else:
             self._after_fork()
 
+    def close(self):
+        super().close()
+        # Since Python 3.9, multiprocessing's Queue.close() leaves the reader
+        # end of the pipe to be closed by its own feeder thread, which is
+        # overridden below. Close it here: a feeder thread blocked on a full
+        # pipe that nobody reads anymore (e.g. all the workers were killed)
+        # would otherwise never end and keep the pipe and the locks alive.
+        self._reader.close()
+
     # Overload _start_thread to correctly call our custom _feed
     def _start_thread(self):
         util.debug("Queue._start_thread()")
